@@ -99,7 +99,11 @@ def tr_value_tokens(spec):
     """Tokens for the numbers of a transformation spec (displacement, then
     matrix entries; masked entries become ``j`` placeholders, trailing masked
     entries are omitted)."""
-    toks = [T(num(v)) for v in spec['o']]
+    # spec['disp_j']: displacement entries that are zero may be jumped (the
+    # default of a TR entry); spec['m_j']: the 13th entry m = 1 likewise
+    dj = spec.get('disp_j') or [False] * 3
+    toks = [T(raw('j')) if (dj[q] and v == 0) else T(num(v))
+            for q, v in enumerate(spec['o'])]
     if spec['n'] == 3 or spec['full'] is None:
         return toks
     mask = spec.get('mask') or [True] * 9
@@ -124,7 +128,8 @@ def tr_value_tokens(spec):
         out.append(e)
     toks += out
     if spec['n'] == 13:
-        toks.append(T(raw(str(spec['m'] if spec.get('m') is not None else 1))))
+        m = spec['m'] if spec.get('m') is not None else 1
+        toks.append(T(raw('j' if (spec.get('m_j') and m == 1) else str(m))))
     return toks
 
 
